@@ -116,7 +116,7 @@ def gen_case(rng, docopts, hostile_ids=None):
         else:
             scope = rng.choice(['user', 'project', 'both', 'both'])
         targets[t] = {'scope': scope, 'options': gen_options(rng, t, docopts)}
-    names = ['one', 'two', 'dup', 'team/x', 'x', 'Z', 'über', 'with space', 'alpha:tool', 'beta:tool', 'a:b:c', ':lead', 'trail:']
+    names = ['one', 'two', 'dup', 'team/x', 'x', 'Z', 'über', 'with space', 'alpha:tool', 'beta:tool', 'a:b:c', ':lead', 'trail:', './one', 'one//', 'one/.', 'two/./', './/two']
     CONSUMES = {'codex': ['instructions', 'skill', 'prompt'], 'claude_code': ['command', 'skill'], 'cursor': ['instructions'],
                 'vscode': ['instructions', 'prompt'], 'jetbrains': ['instructions'], 'zed': ['instructions']}
     wanted = [ty for t in tnames for ty in CONSUMES[t]]
@@ -150,6 +150,9 @@ def gen_case(rng, docopts, hostile_ids=None):
         if cand:
             o = rng.choice(cand)
             name_part = o['id'].split(':', 1)[1] if ':' in o['id'] else sanitize(o['id'])
+            if o['type'] == 'skill' and rng.random() < 0.35 and name_part and not name_part.startswith('/'):
+                # the SAME directory under another spelling (./x, x//, x/.): one output path, not two
+                name_part = rng.choice(['./' + name_part, name_part + '//', name_part + '/.', './/' + name_part])
             tid = fresh(rng.choice(['alt', 'zz', 'A']) + ':' + name_part, 99) if o['type'] == 'skill' else fresh(o['type'] + ':twin', 98)
             files = list(o['files'])
             if rng.random() < 0.55:
@@ -350,6 +353,9 @@ def ref_render(case, docopts):
     sel.sort(key=lambda m: m['id'].encode('utf-8'))
     out = {}; state = {'conflict': False, 'invalid': False}
     def put(t, path, data, ids_):
+        # desired files are keyed by (target, PathBuf): paths compare by COMPONENTS (a/./b, a//b, a/b/. are one file)
+        lead = '/' if path.startswith('/') else ''
+        path = lead + '/'.join(c for c in path.split('/') if c not in ('', '.'))
         k = (t, path)
         if k in out:
             if out[k][0] != data: state['conflict'] = True
